@@ -132,12 +132,15 @@ pub fn oracle(case: &Case, spc: &SpCase, res: &SpResult) -> (Option<(String, Str
             if synacks.len() > spc.sock.max_retx as usize + 1 {
                 viol!("synack-too-many", "{} SYN-ACK transmissions, the configured number of retransmissions is {}", synacks.len(), spc.sock.max_retx);
             }
-            for w in synacks.windows(2) {
-                let gap = w[1].t_us - w[0].t_us;
-                if gap.abs_diff(200_000) > 1_000 {
-                    viol!("synack-interval", "SYN-ACK repeated after {} us (log #{} -> #{}), the interval is 200 ms", gap, w[0].idx, w[1].idx);
+            // the repetition interval is not part of the property: it is read off the first repetition, and later
+            // gaps must be regular — equal to, or at most twice, the previous one (constant or backed-off schedules)
+            let gaps: Vec<u64> = synacks.windows(2).map(|w| w[1].t_us - w[0].t_us).collect();
+            for (i, w) in gaps.windows(2).enumerate() {
+                if w[1] + 1_000 < w[0] || w[1] > 2 * w[0] + 1_000 {
+                    viol!("synack-interval", "SYN-ACK repetitions are irregular: gap {} us then {} us (repetitions {}..{})", w[0], w[1], i + 1, i + 3);
                 }
             }
+            let interval = gaps.last().copied();
             if synacks.len() >= 2 { labels.insert("synack_retransmitted"); }
             if let Some((tv, ov)) = first_valid {
                 // no SYN-ACK repetition after the initiator's first valid packet (later identical
@@ -147,10 +150,12 @@ pub fn oracle(case: &Case, spc: &SpCase, res: &SpResult) -> (Option<(String, Str
                 // initiator silent: after the last repetition the connection gives up: stream operations fail
                 let quiet_for = res.t_end_us.saturating_sub(synacks.last().map(|r| r.t_us).unwrap_or(0));
                 let app_closed = res.app.iter().any(|a| matches!(a.ev, AppEv::WriterDropped | AppEv::ReaderDropped | AppEv::ShutdownOk | AppEv::ShutdownErr(_))) || res.shutdown_called_at_us.is_some() || tx.iter().any(|t| t.pkt.as_ref().unwrap().ptype == refparse::ST_FIN);
-                if quiet_for > 600_000 && synacks.len() < spc.sock.max_retx as usize && res.t_end_us > (spc.sock.max_retx as u64 + 2) * 200_000 && !app_closed {
+                // (silent for three of its own intervals, or — when no repetition was seen at all — for 5 s)
+                let silent_long = match interval { Some(g) => quiet_for > 3 * g + 1_000, None => quiet_for > 5_000_000 };
+                if silent_long && synacks.len() < spc.sock.max_retx as usize && !app_closed {
                     viol!("synack-stopped-early", "only {} SYN-ACK transmissions although the initiator stayed silent for {} us (configured retransmissions {})", synacks.len(), quiet_for, spc.sock.max_retx);
                 }
-                if res.t_end_us > (spc.sock.max_retx as u64 + 3) * 200_000 && res.established {
+                if silent_long && synacks.len() >= spc.sock.max_retx as usize && res.established {
                     labels.insert("synack_gave_up");
                     // a pending read must have failed
                     let pending_read = res.app.iter().any(|a| matches!(a.ev, AppEv::ReadErr(_) | AppEv::Eof | AppEv::Read { .. }));
